@@ -51,8 +51,8 @@ CHECKS = {
          "Depth-free table models with generated irrelevance patterns, set packing (dynamic order), common subsequence with jumps; widths 1..3, cache on/off, sequential and 1-3 real threads; all three diagrams exact and equal to the oracle, termination within the proven poll budget, default-completed solution replays." + EXPL,
          TRUST + "models declare irrelevance with a neutral default decision.", "§7 C15"),
  "C16": ("sub-process differential property-based testing (Hypothesis) of the 12 shipped example binaries against independent brute-force solvers written from the problem statements",
-         "For each example a Hypothesis strategy generates well-formed instances in the example's file format (sizes small enough for exhaustive enumeration), the dev-profile binary built from /repo's working tree is run as a sub-process for widths {1,2,3,default} x threads {1,2[,4]} and its printed objective / proof status / exit code is compared with the brute-force optimum; crashes and wrong optima are violations, a hang is a watchdog expiry (inconclusive)." + EXPL,
-         "Trusted: the 12 brute-force oracles (cross-validated against the binaries at large widths), instance generators stay inside what each reader/model documents (DESIGN §7 C16); wall-clock watchdog only for hangs (exit 2).", "§7 C16"),
+         "For each example a Hypothesis strategy generates well-formed instances in the example's file format (sizes small enough for exhaustive enumeration), the dev-profile binary built from /repo's working tree is run as a sub-process for widths {1,2,3,default} x threads {1,2[,4]} plus two intermediate widths (4..8, 9..16) chosen by the hash of the instance, and its printed objective / proof status / exit code is compared with the brute-force optimum; crashes and wrong optima are violations, a hang is a watchdog expiry (inconclusive)." + EXPL,
+         "Trusted: the 12 brute-force oracles (cross-validated against the binaries at large widths), instance generators stay inside what each reader/model documents and every restriction they impose is satisfied by all shipped benchmark files of that example (measured, DESIGN §7 C16); wall-clock watchdog only for hangs (exit 2).", "§7 C16"),
  "C17": ("algebraic-law property-based testing of Solver::gap() on a stub solver: exhaustive grid + random pairs + completed solver runs",
          "Five stated predicates checked on every pair of a grid (infinities, 0, small, huge, powers of two and neighbours, both signs), on random pairs, and after completed runs (optimum zero / negative / infeasible)." + EXPL,
          "Trusted: f32 comparison semantics; pairs ordered lb <= ub.", "§7 C17"),
@@ -63,7 +63,7 @@ CHECKS = {
          "lb non-decreasing, ub non-increasing in the cut-off point, exact with lb = ub = optimum after the last poll; the relation is applied only after checking on the recorded pop logs that the run cut at k+1 extends the run cut at k." + EXPL,
          TRUST + "determinism of the sequential solver is verified per case, not assumed.", "§7 C19"),
  "C20": ("property-based testing of as_graphviz over compiled diagrams x all 64 configurations with a grammar-based DOT parser and a faithfulness oracle from recorded callbacks",
-         "No panic; output parses with an independent DOT parser; ids declared once; edge end-points and cluster members declared or hidden by configuration; terminal iff a best value exists; edges match recorded transitions / relaxed arcs (decision, cost, end-points); node set matches created / non-deleted states." + EXPL,
+         "No panic; output parses with an independent DOT parser; ids declared once; edge end-points and cluster members declared or hidden by configuration; terminal iff a best value exists; edges match recorded transitions / relaxed arcs (decision, cost, end-points); node set matches created / non-deleted states (nodes pruned by a warm cache included: a third part compiles the rendered diagram after 2-5 others sharing its cache and dominance store)." + EXPL,
          TRUST + "node faithfulness decided only for depth-embedding states.", "§7 C20"),
 }
 NOT_YET = {}
